@@ -2,6 +2,7 @@ import BSModel.Driver.Util
 import BSModel.Model.Tokenizer
 import BSModel.Model.WriterText
 import BSModel.Driver.C04
+import BSModel.Proofs.TokenizerExact
 /-! protocol (tokenizer model, `Model/Tokenizer.lean`); strings are comma code point lists, `-` empty, `~` None:
   `needs <text>`            → `;`-separated queries the model will put to its parameters on this text:
                                `u:<raw attribute value>` (html.unescape), `l:<ASCII-lowered name>` (str.lower), `e:<entity name>`
@@ -10,6 +11,10 @@ import BSModel.Driver.C04
   `spans <text> <table>`    → `KIND:lo:hi;…|rest=<unconsumed length>|cd=<cdata_elem or ->|flag`   (KIND `SK` = consumed without callback)
   `write <void> <doc> <choices>` → `<Writable 0/1>|<writeText>|<derivedPos of the elements in document order, l.c,l.c,…>`
                                (void/doc/choices as for `c04 emit`)
+  `exact <kind> <body>`     → `<predicate 0/1>|<payload of the model's parse_* on writer(body) ++ "<i>">|<returned index>` for the exact
+                               round-trip theorems of Props/TK: kind `cm` (`<!--body-->`, `CommentBodyOK`), `pi` (`<?body>`, `NoGt`),
+                               `dt` (`<!DOCTYPEbody>`, `NoGt`), `cd` (`<![CDATA[body]]>`, `CdataBodyOK`), `tx` (`body`, `TextOK`; payload and
+                               length of the first data chunk of one loop turn, `~` if the turn starts without data)
   `ws`                      → the model's `\s` set;   `ci <p>` → code points matching pattern letter `p` under re.I (below 0x3000)
   table = `;`-separated `u:<k>=<v>`, `l:<k>=<v>`, `e:<k>=<v|~>`; absent `u`/`l` keys map to themselves -/
 namespace BS.Drv.TK
@@ -108,6 +113,22 @@ def handle : List String → String
     let w := decide (BS.WriterText.Writable iv c ds)
     let ps := pos.map fun e => let q := BS.WriterText.derivedPos iv c ds e.1; s!"{q.1}.{q.2}"
     s!"{bit w}|{showL (BS.WriterText.writeText iv c ds)}|{if ps.isEmpty then "-" else ",".intercalate ps}"
+  | ["exact", kind, body] =>
+    let b := cps body
+    let rest : PStr := [60, 105, 62]
+    let showPR (ok : Bool) (r : PR) : String :=
+      match r with
+      | .ok (.cm x) n _ | .ok (.pi x) n _ | .ok (.dl x) n _ | .ok (.ud x) n _ => s!"{bit ok}|{showL x}|{n}"
+      | _ => s!"{bit ok}|~|0"
+    if kind == "cm" then showPR (decide (CommentBodyOK b)) (parseComment none (writeComment b ++ rest))
+    else if kind == "pi" then showPR (decide (NoGt b)) (parsePi none (writePi b ++ rest))
+    else if kind == "dt" then showPR (decide (NoGt b)) (parseHtmlDeclaration none (writeDoctype [68, 79, 67, 84, 89, 80, 69] b ++ rest))
+    else if kind == "cd" then showPR (decide (CdataBodyOK b)) (parseMarkedSection none (writeCdata b ++ rest))
+    else if kind == "tx" then
+      match (b.head?.map isPlain).getD false, (step params0 false ⟨b ++ rest, (1, 0), none⟩).1.head? with
+      | true, some ⟨.data x, src, _⟩ => s!"{bit (decide (TextOK b))}|{showL x}|{src.length}"
+      | _, _ => s!"{bit (decide (TextOK b))}|~|0"
+    else "bad-op"
   | ["ws"] => showL ((List.range 0x3100).filter isWs)
   | ["ci", p] =>
     match p.toNat? with
